@@ -31,7 +31,8 @@ def clang_cmd(lang):
 class _Walker:
     def __init__(self, src_lines):
         self.src = src_lines
-        self.lams = []         # ids of the enclosing LambdaExpr nodes
+        self.lams = []         # ids of the enclosing LambdaExpr nodes (inside a capture initialiser: without that lambda)
+        self.body_off = {}     # LambdaExpr id -> file offset of the `{` of its body
         self.initcaps = {}     # LambdaExpr id -> [(name, (line, col))]
         self.line = 0
         self.file = ""
@@ -73,11 +74,20 @@ class _Walker:
                 end = self.loc(v.get("end"))
             elif k == "inner":
                 if kind == "LambdaExpr":
-                    self.lams.append(n.get("id"))
-                for c in v:
-                    self.node(c)
-                if kind == "LambdaExpr":
-                    self.lams.pop()
+                    # children: closure class, capture initialisers, body
+                    for c in v:
+                        if isinstance(c, dict) and c.get("kind") == "CompoundStmt":
+                            self.body_off[n.get("id")] = ((c.get("range") or {}).get("begin") or {}).get("offset", -1)
+                    for c in v:
+                        inside = isinstance(c, dict) and c.get("kind") in ("CXXRecordDecl", "CompoundStmt")
+                        if inside:
+                            self.lams.append(n.get("id"))
+                        self.node(c)
+                        if inside:
+                            self.lams.pop()
+                else:
+                    for c in v:
+                        self.node(c)
             elif isinstance(v, dict):
                 self.other(v)
             elif isinstance(v, list):
@@ -86,7 +96,8 @@ class _Walker:
                         self.other(c)
         if kind == "FieldDecl" and n.get("isImplicit") and here and self.lams:
             m = None
-            if 0 < here[0] <= len(self.src):
+            off = (n.get("loc") or {}).get("offset", -1)
+            if 0 < here[0] <= len(self.src) and 0 <= off < self.body_off.get(self.lams[-1], -1):
                 m = re.match(r"([A-Za-z_]\w*)\s*=(?!=)", self.src[here[0] - 1][here[1] - 1:])
             if m:
                 self.initcaps.setdefault(self.lams[-1], []).append((m.group(1), (here[0], here[1])))
